@@ -94,7 +94,7 @@ func VP_C20_nodrift() {
 	vpUnwind(400)
 	tries := 1
 	if !vpSymbolic() {
-		tries = 24
+		tries = 48
 	}
 	for try := 0; try < tries; try++ {
 		vpResetNames()
@@ -104,15 +104,28 @@ func VP_C20_nodrift() {
 }
 
 func vpNodriftBody(try int) {
-	nth := 0
+	nth, nthX, nthY := 0, 0, 0
 	c := func(tag string) float64 {
 		v := vpRealRange(tag, -10000, 10000)
 		if !vpSymbolic() && try > 0 {
 			// successive coordinates get fractional parts in arithmetic progression, so that
 			// successive deltas share one (poorly approximable) fraction
-			nth++
 			step := []float64{0.004, 0.0047, 0.0093, 0.0031, 0.0042, 0.0045}[try%6]
-			v = float64(int64(v)) + float64(nth)*step*float64(1+try/6)
+			if try < 24 {
+				nth++
+				v = float64(int64(v)) + float64(nth)*step*float64(1+try/6)
+			} else {
+				// one progression per axis: all deltas along an axis have the same fraction, so the
+				// rounding errors of successive commands have the same sign and add up
+				k := &nthX
+				for i := 0; i < len(tag); i++ {
+					if tag[i] == 'y' {
+						k = &nthY
+					}
+				}
+				*k++
+				v = float64(int64(v)) + float64(*k-1)*step*float64(1+(try-24)/6) // the start point is integral
+			}
 		}
 		return v
 	}
@@ -158,6 +171,13 @@ func vpNodriftBody(try int) {
 		}
 		g.CurveTo(x1, y1, x2, y2, x3, y3)
 		targets = append(targets, [2]float64{x1, y1}, [2]float64{x2, y2}, [2]float64{x3, y3})
+	}
+	if vpChoose("tail", vpParam("TAIL", 2)) == 1 {
+		// a general line after the command: shows whether the encoder tracked the position the
+		// command really reached (its own rounding included) and not the ideal one
+		x, y := c("tx"), c("ty")
+		g.LineTo(x, y)
+		targets = append(targets, [2]float64{x, y})
 	}
 	code := g.encodeCharString(500, 0)
 	toks := vpCharstringTokens(code)
@@ -220,8 +240,11 @@ func vpNodriftBody(try int) {
 	}
 	// 1e-6 on top of the bound: the encoder treats coordinates closer than 1e-6 as equal
 	const tol = vpBound + 2e-6
+	// one assertion site per shape: counterexamples are collected (and confirmed natively) per site,
+	// and the axis-aligned shapes are the ones the native replay can keep intact
+	sfx := []string{"", "/horizontal", "/vertical"}[shape]
 	for i := range targets {
-		vpAssert("point-x-within-the-bound", vpWithin(got[i][0], targets[i][0], tol))
-		vpAssert("point-y-within-the-bound", vpWithin(got[i][1], targets[i][1], tol))
+		vpAssert("point-x-within-the-bound"+sfx, vpWithin(got[i][0], targets[i][0], tol))
+		vpAssert("point-y-within-the-bound"+sfx, vpWithin(got[i][1], targets[i][1], tol))
 	}
 }
